@@ -247,12 +247,11 @@ def c05(repo, col):
        "compatible scale pairs"])
 def c06(repo, col):
     T.tiling_site(repo, col, "dyadic_pyramid", "compute_dyadic_downscaling")
-    T.tiling_site(repo, col, "dyadic_pyramid",
-                  "compute_dyadic_downscaling.load_and_downscale_old_chunk",
-                  require_count=False)
     T.coords_tuple(repo, col, "dyadic_pyramid", "compute_dyadic_downscaling")
-    T.coords_tuple(repo, col, "dyadic_pyramid",
-                   "compute_dyadic_downscaling.load_and_downscale_old_chunk")
+    _top, helpers = T.pyramid_sites(repo)
+    for h in helpers:
+        T.tiling_site(repo, col, None, None, require_count=False, fn=h)
+        T.coords_tuple(repo, col, None, None, fn=h)
     T.octants(repo, col)
     O.pyramid_guards(repo, col)
     O.level_driver(repo, col)
